@@ -889,14 +889,24 @@ def zygote():
 
 
 def fresh_call(s, argdesc, n, gseed):
-    z = zygote()
+    global _zy
     payload = pickle.dumps((s, argdesc, n, gseed))
-    z.stdin.write(struct.pack('<I', len(payload)))
-    z.stdin.write(payload)
-    z.stdin.flush()
-    hdr = z.stdout.read(4)
-    (ln,) = struct.unpack('<I', hdr)
-    return pickle.loads(z.stdout.read(ln))
+    for attempt in (0, 1):
+        try:
+            z = zygote()
+            z.stdin.write(struct.pack('<I', len(payload)))
+            z.stdin.write(payload)
+            z.stdin.flush()
+            hdr = z.stdout.read(4)
+            (ln,) = struct.unpack('<I', hdr)
+            return pickle.loads(z.stdout.read(ln))
+        except Exception:
+            try:
+                _zy.kill()
+            except Exception:
+                pass
+            _zy = None
+    return new_interpreter_call(s, argdesc, n, gseed)
 
 
 NEWSRC = r'''
@@ -1000,6 +1010,37 @@ class Tracker:
 def rng_state():
     st = np.random.get_state()
     return (st[0], st[1].tobytes(), st[2], st[3], st[4])
+
+
+STATS = {}
+
+
+def bump(k, n=1):
+    STATS[k] = STATS.get(k, 0) + n
+
+
+REGKEYS = ('p', 'w', 'a', 'out', 'scratch', 'amp', 'opd', 'mask', 'r', 's', 's1', 's2', 'wave', 'value')
+
+
+def slice_of(c, t):
+    """the steps step t depends on (through registers), for a readable replay"""
+    st = c['steps']
+    acc = set()
+
+    def go(k):
+        if k in acc:
+            return
+        acc.add(k)
+        s = st[k]
+        for key in REGKEYS:
+            v = s.get(key)
+            if isinstance(v, int) and not isinstance(v, bool) and 0 <= v < k:
+                go(v)
+        for v in s.get('args', []):
+            go(v)
+        # in-place steps on the same registers that came before matter too
+    go(t)
+    return sorted(acc)
 
 
 def run_hist(c):
@@ -1115,6 +1156,18 @@ def run_hist(c):
                 if not same_outcome(mine, fr):
                     msgs.append('the same call made first in a new interpreter gives a different result')
         rec['hist'] = msgs
+        bump('calls')
+        bump('calls_' + st.split(':')[0])
+        if doc_bufs or doc_objs:
+            bump('calls_with_documented_target')
+        if not rand:
+            bump('repeat_checks')
+            if fresh_mode == 'all':
+                bump('fresh_process_checks')
+            if seeded:
+                bump('reseeded_checks')
+        if t in c.get('newinterp', ()):
+            bump('new_interpreter_checks')
         out_steps.append(rec)
     return {'steps': out_steps}
 
@@ -1212,7 +1265,7 @@ def oracle(c, impl):
     for t, r in enumerate(impl['steps']):
         if r['st'] == 'skip' or 'changed' not in r or 'undoc' not in r:
             continue
-        what = f'step {t} ({r["f"]}): '
+        what = f'step {t} ({r["f"]}; depends on steps {slice_of(c, t)}): '
         if r['undoc']:
             return what + f'the call modified caller array(s) {r["undoc"]} that are not documented as in-place'
         if r['ro_undoc']:
@@ -1310,3 +1363,8 @@ def compare(c, impl, model):
 
 def known_match(f, c, impl):
     return False
+
+
+def extra(tier, rng):
+    """no additional checks; reports how many calls were made and how they were cross-examined"""
+    return {'report': dict(STATS), 'violations': []}
